@@ -20,8 +20,9 @@ type opDef struct {
 	Src    string
 	Target int
 	Dest   int
-	Class  string
-	Freeze bool // evaluates the freeze laws
+	Class  string // fine class (outcome histogram)
+	Route  string // coarse class used in signatures
+	Freeze bool   // evaluates the freeze laws
 }
 
 var opTable []opDef
@@ -52,11 +53,17 @@ var writers = []tmpl{
 	{"X[0].k[0] = 9", "child-indexset", ""},
 	{"X[0].value[0] = 9", "errvalue-indexset", ""},
 	{"X.value[0] = 9", "errvalue-indexset", ""},
+	// the same write compiled to OpSetSelLocal / OpSetSelFree instead of OpSetSelGlobal
+	{"func(a) { a[0] = 9 }(X)", "local-indexset", ""},
+	{"func(a) { return func() { a[0] = 9 } }(X)()", "free-indexset", ""},
 	{"splice(X, 0, 1)", "splice", ""},
 	{"splice(X, 0, 0, 7)", "splice", ""},
 	{`delete(X, "a")`, "delete", ""},
 	{"for k, v in X { X[k] = 9 }", "iter-indexset", ""},
-	{"for k, v in X { if is_array(v) { v[0] = 9 } }", "iter-child-indexset", ""},
+	// guarded by len(v) > 0 so that no write inside the loop can fail: map
+	// iteration order is random, and a failure half way through would make the
+	// successor depend on it (is_array is true for mutable arrays only)
+	{"for k, v in X { if is_array(v) && len(v) > 0 { v[0] = 9 } }", "iter-child-indexset", ""},
 	{"X += [7]", "pluseq", "X"},
 	{"X += immutable([7])", "pluseq", "X"},
 }
@@ -116,7 +123,7 @@ func buildOps() {
 		if t.class == "freeze" {
 			name = varNames[d] + " = freeze(" + varNames[x] + ")"
 		}
-		opTable = append(opTable, opDef{Name: name, Src: src, Target: x, Dest: d, Class: t.class, Freeze: t.class == "freeze"})
+		opTable = append(opTable, opDef{Name: name, Src: src, Target: x, Dest: d, Class: t.class, Route: routeOf(t.class), Freeze: t.class == "freeze"})
 	}
 	for x := 0; x < 4; x++ {
 		for _, t := range writers {
@@ -135,6 +142,20 @@ func buildOps() {
 	if len(opTable) > 255 {
 		panic("operation table exceeds uint8 path encoding")
 	}
+}
+
+// routeOf folds the fine operation classes into the handful of route names
+// that appear in signatures.
+func routeOf(class string) string {
+	switch class {
+	case "local-indexset", "free-indexset", "iter-indexset", "alias-indexset":
+		return "indexset"
+	case "selset-newkey":
+		return "selset"
+	case "iter-child-indexset":
+		return "child-indexset"
+	}
+	return class
 }
 
 func opByName(name string) *opDef {
